@@ -214,6 +214,102 @@ def optEntryOk (name : List Char) (modifiable on : Bool) : Bool :=
   else readBack (dropNl' (printOpt name modifiable on)) == none
 where dropNl' (l : List Char) : List Char := if l.getLast? = some '\n' then l.dropLast else l
 
+/-- the operand of `umask <three octal digits>` -/
+def parseOctal3 (cs : List Char) : Option Nat :=
+  match cs.map (fun c => c.toNat - 48) with
+  | [a, b, c] => some (a * 64 + b * 8 + c)
+  | _ => none
+
+/-! ### symbolic `umask` (yash-builtin/src/umask/symbol.rs `parse_clauses`, eval.rs `new_mask`, format.rs) -/
+
+inductive Perm
+  | copyU | copyG | copyO
+  | lit (mask : Nat) (condX : Bool)
+  deriving DecidableEq
+
+/-- `Who::parse` -/
+def parseWho : List Char → Nat → Nat × List Char
+  | 'u' :: r, m => parseWho r (m ||| 0o700)
+  | 'g' :: r, m => parseWho r (m ||| 0o070)
+  | 'o' :: r, m => parseWho r (m ||| 0o007)
+  | 'a' :: r, m => parseWho r (m ||| 0o777)
+  | r, m => (if m = 0 then 0o777 else m, r)
+
+def isPermChar (c : Char) : Bool := "ugorwxXs".toList.contains c
+
+/-- `Permission::parse` -/
+def parsePerm (cs : List Char) : Option (Perm × List Char) :=
+  let alpha := cs.takeWhile isPermChar
+  if alpha.any (fun c => c = 'u' || c = 'g' || c = 'o') then
+    match alpha with
+    | ['u'] => some (.copyU, cs.drop 1)
+    | ['g'] => some (.copyG, cs.drop 1)
+    | ['o'] => some (.copyO, cs.drop 1)
+    | _ => none
+  else
+    let mask := alpha.foldl (fun m c =>
+      if c = 'r' then m ||| 0o444 else if c = 'w' then m ||| 0o222 else if c = 'x' then m ||| 0o111 else m) 0
+    some (.lit mask (alpha.contains 'X'), cs.drop alpha.length)
+
+/-- operator: 0 = add, 1 = remove, 2 = set -/
+def parseOp : Char → Option Nat
+  | '+' => some 0 | '-' => some 1 | '=' => some 2 | _ => none
+
+/-- actions of one clause (`Clause::parse` loop), at least one -/
+def parseActions : Nat → List Char → List (Nat × Perm) → Option (List (Nat × Perm) × List Char)
+  | 0, _, _ => none
+  | fuel + 1, cs, acc =>
+    match cs with
+    | c :: r =>
+      match parseOp c with
+      | some op =>
+        match parsePerm r with
+        | some (p, r') => parseActions fuel r' (acc ++ [(op, p)])
+        | none => none
+      | none => if acc.isEmpty then none else some (acc, cs)
+    | [] => if acc.isEmpty then none else some (acc, [])
+
+/-- `parse_clauses` -/
+def parseClauses : Nat → List Char → Option (List (Nat × List (Nat × Perm)))
+  | 0, _ => none
+  | fuel + 1, cs =>
+    let (who, r) := parseWho cs 0
+    match parseActions (r.length + 1) r [] with
+    | none => none
+    | some (acts, r') =>
+      match r' with
+      | [] => some [(who, acts)]
+      | ',' :: r'' => (parseClauses fuel r'').map ((who, acts) :: ·)
+      | _ => none
+
+def copyBits (m : Nat) : Nat := let b := m &&& 7; (b <<< 6) ||| (b <<< 3) ||| b
+def notBits (x : Nat) : Nat := 511 ^^^ (x &&& 511)
+
+/-- `eval::new_mask` on the allowed bits (9 bits) -/
+def evalClauses (current : Nat) (cl : List (Nat × List (Nat × Perm))) : Nat :=
+  cl.foldl (fun result c =>
+    c.2.foldl (fun result a =>
+      let resolution := match a.2 with
+        | .copyU => copyBits (current >>> 6)
+        | .copyG => copyBits (current >>> 3)
+        | .copyO => copyBits current
+        | .lit m cx => m ||| (if cx && (current &&& 0o111) ≠ 0 then 0o111 else 0)
+      let who := c.1
+      if a.1 = 0 then (resolution &&& who) ||| result
+      else if a.1 = 1 then notBits (resolution &&& who) &&& result
+      else (resolution &&& who) ||| (result &&& notBits who)) result) current
+
+/-- `umask -- <symbolic>`: the new allowed bits -/
+def applySymbolic (text : List Char) (current : Nat) : Option Nat :=
+  (parseClauses (text.length + 1) text).map (evalClauses current)
+
+/-- `format_symbolic` -/
+def formatSymbolic (allowed : Nat) : List Char :=
+  let grp (sh : Nat) : List Char :=
+    (if allowed >>> sh &&& 4 ≠ 0 then ['r'] else []) ++ (if allowed >>> sh &&& 2 ≠ 0 then ['w'] else [])
+      ++ (if allowed >>> sh &&& 1 ≠ 0 then ['x'] else [])
+  "u=".toList ++ grp 6 ++ ",g=".toList ++ grp 3 ++ ",o=".toList ++ grp 0
+
 /-! ### reading an entry back (what the listing means to a fresh shell) -/
 
 def dropNl (l : List Char) : List Char := if l.getLast? = some '\n' then l.dropLast else l
@@ -276,6 +372,29 @@ def stateVerdict (s : State) : String :=
     "FAIL:O:entry-does-not-reread"
   else "ok"
 
+/-! ### listings with operands, `trap -p`, `set -o`, `umask -S` -/
+
+/-- `alias -- n1 n2 …` with the names in descending order -/
+def listAliasOperands (s : State) : List Char := ((sortBy (·.1) s.aliases).reverse.map printAlias).flatten
+
+/-- `typeset -p -- n1 n2 …` (names in descending order; names containing `=` cannot be operands) -/
+def listTypesetOperands (s : State) : List Char :=
+  (((sortBy (·.name) s.vars).reverse.filter (!·.name.contains '=')).map (printVar "typeset" typesetOpts false)).flatten
+
+/-- `trap -p COND…` (`Command::Print`): every operand, the default action as `-` -/
+def listTrapP (s : State) : List Char :=
+  (condOrder.reverse.map fun c =>
+    printTrap (c, ((s.traps.find? (·.1 = c)).map (·.2)).getD ['-'])).flatten
+
+/-- `set -o` (`PrintOptionsHumanReadable`): `{option:16} {state}` -/
+def listSetOHuman (s : State) : List Char :=
+  (Generated.OptionTable.options.map fun o =>
+    o.1 ++ List.replicate (16 - o.1.length) ' ' ++ [' ']
+      ++ (if s.optOn o.1 o.2.2 then "on".toList else "off".toList) ++ ['\n']).flatten
+
+/-- `umask -S` -/
+def listUmaskS (s : State) : List Char := formatSymbolic (511 - s.umask % 512) ++ ['\n']
+
 /-! ### driver part -/
 
 def decHexList (t : String) : Option (List (List Char)) :=
@@ -290,13 +409,16 @@ def applyOp (s : State) (op : String) : Option State :=
   | ["pn", n, a] => do pure (s.declare (← decChars n) (a.contains 'x') (a.contains 'r'))
   | ["n", n, a] => do pure (s.declare (← decChars n) (a.contains 'x') (a.contains 'r'))
   | ["a", n, vs, a] => do pure (s.setArray (← decChars n) (← decHexList vs) (a.contains 'x') (a.contains 'r'))
+  | ["e", n, v] => do
+    let name ← decChars n
+    if name.contains '=' then pure (s.setScalar name (← decChars v) false false) else none
+  | ["ms", m] =>
+    if m.isEmpty || !(m.toList.all fun c => "ugoarwxXs+-=,".toList.contains c) then none
+    else (applySymbolic m.toList (511 - s.umask % 512)).map fun allowed => { s with umask := 511 - allowed }
   | ["l", n, v] => do pure (s.setAlias (← decChars n) (← decChars v))
   | ["lg", n, v] => do pure (s.setAlias (← decChars n) (← decChars v))
   | ["t", c, a] => do pure (s.setTrap c (← decChars a))
-  | ["m", m] =>
-    match m.toList.map (fun c => c.toNat - 48) with
-    | [a, b, c] => some { s with umask := a * 64 + b * 8 + c }
-    | _ => none
+  | ["m", m] => (parseOctal3 m.toList).map fun u => { s with umask := u }
   | ["o", o, st] => some (s.setOpt o.toList (st = "1"))
   | [k, n, _] => if k = "f" || k = "fq" || k = "fk" then do pure (s.setFn (← decChars n) false) else none
   | [k, n, _, "r"] => if k = "f" || k = "fq" || k = "fk" then do pure (s.setFn (← decChars n) true) else none
@@ -310,6 +432,6 @@ def runL (ops : List String) : String :=
   | none => "bad-case\t-"
   | some s =>
     let e (l : List Char) := encChars l
-    s!"A={e (listAlias s)} V={e (listTypeset s)} X={e (listExport s)} R={e (listReadonly s)} S={e (listSet s)} T={e (listTrap s)} U={e (listUmask s)} O={e (listSetO s)} Fa={e (listFnAttr s)}\t{stateVerdict s}"
+    s!"A={e (listAlias s)} V={e (listTypeset s)} X={e (listExport s)} R={e (listReadonly s)} S={e (listSet s)} T={e (listTrap s)} U={e (listUmask s)} O={e (listSetO s)} Ao={e (listAliasOperands s)} Vo={e (listTypesetOperands s)} Tc={e (listTrapP s)} Oh={e (listSetOHuman s)} Us={e (listUmaskS s)} Fa={e (listFnAttr s)}\t{stateVerdict s}"
 
 end YashModel.Quote.Listing
